@@ -20,6 +20,8 @@ SEEDS = {
     'C08-cbor-bytestring-strref-gt': ('C08', 'cbor_strref'), 'C03-escape-u8-saved-state': ('C03', 'json_string'), 'C10-source-reader-unread': ('C10', 'source_reader'),
     'C16-from-diff-empty-object-target': ('C16', 'mergepatch'), 'C15-replace-moves-before-validation': ('C15', 'jsonpatch'), 'C09-compare-double-uint64-cast': ('C09', 'cmp'),
     'C07-cbor-indefinite-text-buffer-clear': ('C07', 'cbor_strings'), 'C14-remove-signed-index': ('C14', 'jsonpointer'),
+    'C13-sort-by-unstable': ('C13', 'jmespath_sort'),
+    'C18-toon-is-number-exponent-plus': ('C18', 'toon_number'),
     'C03-fals-cursor-mode': ('C03', 'json_literals'), 'C04-grisu-boundary-shift': ('C04', 'grisu'), 'C10-source-reader-claimed-length': ('C10', 'source_reader'),
 }
 only = sys.argv[1:]
